@@ -281,6 +281,32 @@ def witness_of(ctx, events, upto):
             if blamed and (key is None or key in blamed):
                 return f
             continue
+        if f.get("witness_event") == "insert_over_dead_entry":
+            # an insert on a key whose entry was in the map but dead (hidden by invalidate_all or
+            # expired) right before the call
+            cfg = events[0]
+            ttl, tti = cfg.get("ttl", -1), cfg.get("tti", -1)
+            prev = None
+            hit = False
+            for e in events[:upto + 1]:
+                if e.get("ev") == "Insert" and prev is not None:
+                    now = e.get("now", 0)
+                    va = prev.get("va", -1)
+                    for r in prev.get("res", []):
+                        if r.get("k") != e.get("k"):
+                            continue
+                        lm, la = r.get("lm"), r.get("la")
+                        dead = (va is not None and va >= 0 and ((lm is not None and lm >= 0 and lm < va) or
+                                                                (la is not None and la >= 0 and la < va)))
+                        dead = dead or (ttl is not None and ttl >= 0 and lm is not None and lm >= 0 and lm + ttl <= now)
+                        dead = dead or (tti is not None and tti >= 0 and la is not None and la >= 0 and la + tti <= now)
+                        if dead:
+                            hit = True
+                if e.get("snap"):
+                    prev = e["snap"]
+            if hit:
+                return f
+            continue
         for e in events[:upto + 1]:
             for m in e.get("mx") or []:
                 if m.get("t") in tags:
